@@ -172,7 +172,9 @@ func compareNodes(r *ExecResult, a, b *Node, u *Universe, when string, newState 
 				}
 			}
 		}
-		if bucket == "Class" && implicit[feltText(strings.TrimPrefix(d.Key, "Class/"))] {
+		if bucket == "Class" && d.A != "<absent>" && implicit[feltText(strings.TrimPrefix(d.Key, "Class/"))] {
+			// only this direction is that defect: A still has a class (or an older declaration
+			// height) that B does not have; a class missing on A is something else
 			add("class-of-deployed-contract-survives-revert", d)
 			continue
 		}
@@ -229,7 +231,7 @@ func compareNodes(r *ExecResult, a, b *Node, u *Universe, when string, newState 
 		if m := reHeadStorage.FindStringSubmatch(d.Query); m != nil && staleLeaf[m[1]+"/"+m[2]] {
 			sig = "newstate-deleted-trie-leaf-stays-on-disk-after-revert"
 		}
-		if m := reClassQuery.FindStringSubmatch(d.Query); m != nil && implicit[m[1]] {
+		if m := reClassQuery.FindStringSubmatch(d.Query); m != nil && implicit[m[1]] && strings.HasPrefix(d.A, "ok") {
 			sig = "class-of-deployed-contract-survives-revert"
 		}
 		if strings.HasPrefix(d.Query, "Events(") {
